@@ -184,15 +184,24 @@ REAL_PAYLOADS = {
 
 
 class Cases:
-    def __init__(self):
+    """collects cases in batches; dedup is per family (small sets), excluded constructs are counted"""
+
+    def __init__(self, sink, batch=250000):
+        self.sink = sink
+        self.batch = batch
         self.cases = []
         self.seen = set()
         self.excluded = {}
+        self.total = 0
+
+    def family(self):
+        """start a new family: forget the dedup keys of the previous one (bounded memory)"""
+        self.seen = set()
 
     def add(self, fn, via, data, regs=(), quote=''):
         data = bytes(data)
         regs = list(regs)
-        k = (fn, via, data, quote, json.dumps(regs, sort_keys=True))
+        k = hash((fn, via, data, quote, json.dumps(regs, sort_keys=True)))
         if k in self.seen:
             return
         self.seen.add(k)
@@ -202,6 +211,14 @@ class Cases:
             return
         self.cases.append(dict(id=len(self.cases), fn=fn, via=via, quote=quote, reg=regs,
                                regs=[B(t) for t in covers(regs)], **{'in': B(data)}))
+        if len(self.cases) >= self.batch:
+            self.flush()
+
+    def flush(self):
+        if self.cases:
+            self.total += len(self.cases)
+            self.sink(self.cases)
+            self.cases = []
 
 
 def ident(c):
@@ -229,8 +246,13 @@ def parse_gen_dump(path):
 
 
 def parse_s_dump(path):
+    """(string, known-construct flag) of every state in a MediatypeGen dump / simulation trace file"""
     txt = open(path).read()
-    return [bytes(vlib.tla_seq_to_list(' '.join(p.split()))) for p in re.findall(r'^(?:/\\ )?s = (<<[^>]*>>)', txt, re.M)]
+    ss = re.findall(r'^(?:/\\ )?s = (<<[^>]*>>)', txt, re.M)
+    ks = re.findall(r'^(?:/\\ )?known = (TRUE|FALSE)', txt, re.M)
+    if len(ss) != len(ks):
+        raise vlib.Infra('cannot parse generator states in ' + path)
+    return [(bytes(vlib.tla_seq_to_list(' '.join(p.split()))), k == 'TRUE') for p, k in zip(ss, ks)]
 
 
 def sim_states(ctx, module, cfg, n, depth, parser, tag):
@@ -293,26 +315,23 @@ def embed(cs, u, regs, rnd):
         cs.add('DataURI', 'html', u, regs, rnd.choice(['"', "'"]))
 
 
-def make_cases(ctx):
-    import time
-    t0 = time.time()
-    def lap(what):
-        vlib.log('[c18] %6.1fs %s' % (time.time() - t0, what))
+def make_cases(ctx, cs, lap):
+    """generates every case into cs (batches are run and validated as they fill up)"""
     quick = ctx.quick()
     rnd = ctx.rnd
     mts = load_mts()
-    cs = Cases()
     W = min(16, vlib.JOBS)
     # (MC) design model against the abstract relation, exhaustive in the bound
     r = vlib.tlc_mc(ctx, 'DataUriGen', 'DataUriGen_quick.cfg' if quick else 'DataUriGen_thorough.cfg',
                     workers=W, heap='6g', timeout=3000)
     ctx.coverage['design_states_datauri'] = r['distinct']
-    lap('design MC done')
+    lap('DataUriGen design MC done (%d states)' % r['distinct'])
     # (GEN) the same generator without the minifier dimension: its states are the inputs
     dump = ctx.path('gen', 'datauri')
     r = vlib.tlc_mc(ctx, 'DataUriGen', 'DataUriGen_gen_quick.cfg' if quick else 'DataUriGen_gen_thorough.cfg',
                     workers=min(4, W), dump=dump, timeout=1800)
     states = parse_gen_dump(dump + '.dump')
+    os.remove(dump + '.dump')
     if len(states) != r['distinct']:
         raise vlib.Infra('dump of DataUriGen has %d states, TLC reported %d' % (len(states), r['distinct']))
     ctx.coverage['uris_enumerated'] = len(states)
@@ -320,28 +339,41 @@ def make_cases(ctx):
     r = vlib.tlc_mc(ctx, 'MediatypeGen', 'MediatypeGen_quick.cfg' if quick else 'MediatypeGen_thorough.cfg',
                     workers=W, heap='6g', dump=mdump, timeout=3000)
     mstrings = parse_s_dump(mdump + '.dump')
+    os.remove(mdump + '.dump')
     if len(mstrings) != r['distinct']:
         raise vlib.Infra('dump of MediatypeGen has %d states, TLC reported %d' % (len(mstrings), r['distinct']))
     ctx.coverage['mediatypes_enumerated'] = len(mstrings)
-    lap('generators dumped')
+    ctx.coverage['design_states_mediatype'] = r['distinct']
+    # the python copy of the known-construct predicate (used beyond the dump) must agree with the TLA+ one
+    for sx, k in mstrings:
+        if (excluded_mediatype(sx) is not None) != k:
+            raise vlib.Infra('python and TLA+ disagree on the known construct for %r' % sx)
+    lap('generators dumped (%d URIs, %d media type strings)' % (len(states), len(mstrings)))
 
     # ---- data URIs: exhaustive set, raw and validly encoded spelling, no minifier registered
+    cs.family()
     for (mt, enc, pay) in states:
-        cs.add('DataURI', 'direct', render(mts, mt, enc, pay, 'raw'))
+        u = render(mts, mt, enc, pay, 'raw')
+        cs.add('DataURI', 'direct', u)
         if pay:
-            cs.add('DataURI', 'direct', render(mts, mt, enc, pay, 'enc'))
-    # with minifiers registered for the payload type (stub: id / shrinking / growing; real: css json svg;
-    # literal, text/plain and pattern registrations); quick: a seeded third of the states
-    stub_types = ('text/x', 'text/plain')       # real minifiers run on documents (below), not on the byte product
+            u2 = render(mts, mt, enc, pay, 'enc')
+            if u2 != u:
+                cs.add('DataURI', 'direct', u2)
+    # with minifiers registered for the payload type (stubs: identity / shrinking / growing; literal, text/plain
+    # and pattern registrations); a seeded part of the states (real minifiers run on documents, below)
+    stub_types = ('text/x', 'text/plain')
+    frac = 0.2 if quick else 0.4
+    cs.family()
     for (mt, enc, pay) in states:
-        if quick and rnd.random() > 0.2:
+        if rnd.random() > frac:
             continue
         for mode in ('raw', 'enc'):
             u = render(mts, mt, enc, pay, mode)
             if low_type(u) in stub_types:
                 for regs in STUBS_FOR[low_type(u)]:
                     cs.add('DataURI', 'direct', u, regs)
-    # real minifiers on meaningful payloads, every media type spelling of that type, three spellings
+    # real minifiers on documents, every media type spelling of that type, four spellings of the payload
+    cs.family()
     for (i, m) in enumerate(mts):
         t = low_type(b'data:' + m + b',')
         for pay in REAL_PAYLOADS.get(t, []):
@@ -361,10 +393,8 @@ def make_cases(ctx):
                         cs.add('DataURI', 'direct', u, STUBS_FOR['text/x'][0])
                         embed(cs, u, [], rnd)
     # random walks of the generator over all byte values, far beyond the exhaustive bound
-    nsim = 40 if quick else 600
-    sims = sim_states(ctx, 'DataUriGen', 'DataUriGen_sim.cfg', nsim, 49, parse_gen_dump, 'uri')
+    sims = sim_states(ctx, 'DataUriGen', 'DataUriGen_sim.cfg', 40 if quick else 500, 49, parse_gen_dump, 'uri')
     ctx.coverage['uris_simulated'] = len(sims)
-    lap('uri simulation done, %d cases so far' % len(cs.cases))
     for (mt, enc, pay) in sims:
         if not pay or (quick and len(pay) % 3 != ctx.seed % 3 and len(pay) > 6):
             continue
@@ -374,9 +404,10 @@ def make_cases(ctx):
             if low_type(u) in stub_types:
                 for regs in STUBS_FOR[low_type(u)][:2]:
                     cs.add('DataURI', 'direct', u, regs)
+    lap('uri simulation done')
     # embedded channels: a seeded sample of the enumerated set
     pool = [s for s in states if s[2]]
-    for (mt, enc, pay) in vlib.sample(pool, 1500 if quick else 20000, rnd):
+    for (mt, enc, pay) in vlib.sample(pool, 1500 if quick else 25000, rnd):
         for mode in ('raw', 'enc'):
             u = render(mts, mt, enc, pay, mode)
             regs = rnd.choice([[]] + (STUBS_FOR[low_type(u)] if low_type(u) in stub_types else []))
@@ -409,31 +440,36 @@ def make_cases(ctx):
         cs.add('DataURI', 'direct', u)
         embed(cs, u, [], rnd)
 
-    # ---- media type strings
-    for s in mstrings:
-        cs.add('Mediatype', 'direct', s)
-    msims = sim_states(ctx, 'MediatypeGen', 'MediatypeGen_sim.cfg', 40 if quick else 600, 49, parse_s_dump, 'mt')
+    # ---- media type strings: the whole dump in quick; in thorough every string up to length 6 and a seeded
+    # part of length 7 (the design models are checked on all of them by TLC above)
+    cs.family()
+    top = max(len(sx) for sx, _ in mstrings)
+    for sx, _ in mstrings:
+        if quick or len(sx) < top or rnd.random() < 0.3:
+            cs.add('Mediatype', 'direct', sx)
+    msims = sim_states(ctx, 'MediatypeGen', 'MediatypeGen_sim.cfg', 40 if quick else 500, 49, parse_s_dump, 'mt')
     ctx.coverage['mediatypes_simulated'] = len(msims)
-    lap('mediatype simulation done, %d cases so far' % len(cs.cases))
-    for s in msims:
-        cs.add('Mediatype', 'direct', s)
-    # beyond the quick bound: seeded strings of length 6..14 over the same alphabet, and long ones
+    cs.family()
+    for sx, _ in msims:
+        cs.add('Mediatype', 'direct', sx)
+    lap('mediatype simulation done')
+    # seeded strings of length 6..14 over the same alphabet (+ tab, B), and long ones
     alpha = [65, 97, 32, 34, 59, 61, 47, 92, 9, 66]
-    for _ in range(6000 if quick else 120000):
+    for _ in range(6000 if quick else 150000):
         n = rnd.randint(6, 14)
         cs.add('Mediatype', 'direct', bytes(rnd.choice(alpha[:8] if rnd.random() < 0.8 else alpha) for _ in range(n)))
     for n in (1023, 1024, 1100, 2100):
         for pat in (b'Text/Html; Charset="UTF-8"; X=Y ', b'A "B c" D ', b'AB ;'):
             cs.add('Mediatype', 'direct', (pat * (n // len(pat) + 1))[:n])
-    for s in rmts + [b'text/html', b'Text/HTML ; Charset = "UTF-8"', b'video/mp4; codecs="av01.0.05M.08"', b'a/b;x="A\\\\"; Y=Z',
-                     b'multipart/form-data; boundary="--Abc D"', b'"', b'A"', b'"A', b'A "B', b' A" B']:
-        cs.add('Mediatype', 'direct', s)
+    for sx in rmts + [b'text/html', b'Text/HTML ; Charset = "UTF-8"', b'video/mp4; codecs="av01.0.05M.08"', b'a/b;x="A\\\\"; Y=Z',
+                      b'multipart/form-data; boundary="--Abc D"', b'"', b'A"', b'"A', b'A "B', b' A" B']:
+        cs.add('Mediatype', 'direct', sx)
     # through the HTML minifier (type attribute): strings the attribute layer hands over verbatim
-    for s in vlib.sample([x for x in mstrings if len(x) >= 3], 1200 if quick else 12000, rnd) + rmts:
-        if s == s.strip(WS) and b'  ' not in s and all(32 <= c < 127 and c != 38 for c in s) and s:
-            cs.add('Mediatype', 'html', s, [], '"' if 39 in s else "'")
-    lap('%d cases' % len(cs.cases))
-    return cs
+    for sx in vlib.sample([x for x, _ in mstrings if len(x) >= 3], 1200 if quick else 15000, rnd) + rmts:
+        if sx == sx.strip(WS) and b'  ' not in sx and all(32 <= c < 127 and c != 38 for c in sx) and sx:
+            cs.add('Mediatype', 'html', sx, [], '"' if 39 in sx else "'")
+    cs.flush()
+    lap('%d cases generated and validated' % cs.total)
 
 
 # ---- running and validating -------------------------------------------------------------------------
@@ -443,6 +479,8 @@ def run_cases(ctx, exe, cases, tag):
     vlib.write_ndjson(cin, cases)
     vlib.run([exe, cin, tout], timeout=1800)
     lines = [l.rstrip('\n') for l in open(tout)]
+    os.remove(cin)
+    os.remove(tout)
     if len(lines) != len(cases):
         raise vlib.Infra('harness wrote %d lines for %d cases' % (len(lines), len(cases)))
     return lines
@@ -456,10 +494,22 @@ def project(line):
     return json.dumps({k: e[k] for k in KEEP}, separators=(',', ':'))
 
 
+def tv(ctx, lines):
+    """TLC on the projected lines: (indices rejected by the relation -> clause names, indices with model drift)"""
+    _, rejects = vlib.tlc_trace(ctx, 'C18Trace', 'C18Trace.cfg', [project(l) for l in lines], timeout=3000)
+    why, drift = {}, set()
+    for i, w in rejects:
+        if w == 'DRIFT':
+            drift.add(i)
+        else:
+            why.setdefault(i, []).append(w)
+    return why, drift
+
+
 def validate(ctx, exe, cases, tag):
     lines = run_cases(ctx, exe, cases, tag)
-    accepted, rejects = vlib.tlc_trace(ctx, 'C18Trace', 'C18Trace.cfg', [project(l) for l in lines], timeout=2400)
-    return lines, accepted, rejects
+    why, drift = tv(ctx, lines)
+    return lines, why, drift
 
 
 def describe(c, e, why):
@@ -472,35 +522,84 @@ def validate_alone(ctx, exe, cases, tag):
     lines = []
     for n, c in enumerate(cases):
         lines += run_cases(ctx, exe, [dict(c, id=0)], '%s-alone%d' % (tag, n))
-    accepted, rejects = vlib.tlc_trace(ctx, 'C18Trace', 'C18Trace.cfg', [project(l) for l in lines], timeout=2400)
-    why = {}
-    for i, w in rejects:
-        why.setdefault(i, []).append(w)
+    why, _ = tv(ctx, lines)
     return lines, why
 
 
-def confirm(ctx, exe, cases, rejects, tag):
-    """re-run every rejected case alone (fresh process) and re-validate; returns the confirmed ones"""
-    why = {}
-    for i, w in rejects:
-        why.setdefault(i, []).append(w)
-    if any('ORACLE' in w for ws in why.values() for w in ws):
+class Stats:
+    def __init__(self):
+        self.nontrivial = set()
+        self.samples = []
+        self.branch = dict(unchanged=0, base64=0, percent=0, minifier_called=0, mediatype_changed=0)
+        self.bytevals = set()
+        self.per = {}
+        self.lines = 0
+        self.accepted = 0
+        self.rejected = 0
+        self.confirmed = 0
+        self.drift = dict(DataURI=0, Mediatype=0)
+        self.drift_samples = []
+
+
+def process(ctx, exe, st, cases, tag):
+    lines, why, drift = validate(ctx, exe, cases, tag)
+    if any('ORACLE' in ws for ws in why.values()):
         i = [i for i, ws in why.items() if 'ORACLE' in ws][0]
         raise vlib.Infra('TLA+ decoder and Go standard library disagree on %r (machinery)' % S(cases[i]['in']))
-    bad = sorted(why)[:400]
-    lines2, why2 = validate_alone(ctx, exe, [cases[i] for i in bad], tag)
-    out = [(cases[bad[k]], json.loads(lines2[k]), sorted(set(why2[k]))) for k in sorted(why2)]
-    return out, len(why)
+    st.lines += len(lines)
+    st.accepted += len(lines) - len(why)
+    st.rejected += len(why)
+    if why:
+        # every rejected case is re-run alone (fresh process) and re-validated before it counts
+        bad = sorted(why)[:400]
+        lines2, why2 = validate_alone(ctx, exe, [cases[i] for i in bad], tag)
+        for k in sorted(why2):
+            c, e = cases[bad[k]], json.loads(lines2[k])
+            st.confirmed += 1
+            ctx.report(ident(c), describe(c, e, sorted(set(why2[k]))), replay_obj=e)
+    for i, l in enumerate(lines):
+        e = json.loads(l)
+        key = '%s/%s' % (e['fn'], e['via'])
+        st.per[key] = st.per.get(key, 0) + 1
+        if i in drift:
+            st.drift[e['fn']] += 1
+            if len(st.drift_samples) < 5:
+                st.drift_samples.append(dict(fn=e['fn'], out=S(e['out']), **{'in': S(e['in'])}))
+        if e['fn'] == 'DataURI':
+            if e['hasref']:
+                st.bytevals.update(e['refpay'])
+            if e['calls']:
+                st.branch['minifier_called'] += 1
+            if e['out'] == e['in']:
+                st.branch['unchanged'] += 1
+            elif b';base64,' in bytes(e['out']):
+                st.branch['base64'] += 1
+            else:
+                st.branch['percent'] += 1
+        elif e['out'] != e['in']:
+            st.branch['mediatype_changed'] += 1
+        if e['out'] != e['in'] or e['calls']:
+            st.nontrivial.add(hash((e['fn'], e['via'], bytes(e['in']), json.dumps(cases[i]['reg'], sort_keys=True))))
+            if len(st.samples) < 8 and (st.lines - len(lines) + i) % 7919 == 0:
+                st.samples.append(dict(fn=e['fn'], via=e['via'], reg=cases[i]['reg'], out=S(e['out']), **{'in': S(e['in'])}))
 
 
 def run(ctx):
+    import time
+    t0 = time.time()
+
+    def lap(what):
+        vlib.log('[c18] %6.1fs %s' % (time.time() - t0, what))
     exe = vlib.build_harness(ctx, 'c18')
-    cs = make_cases(ctx)
-    cases = cs.cases
-    lines, accepted, rejects = validate(ctx, exe, cases, 'main')
-    confirmed, nrej = confirm(ctx, exe, cases, rejects, 'main') if rejects else ([], 0)
-    for c, e, why in confirmed:
-        ctx.report(ident(c), describe(c, e, why), replay_obj=e)
+    st = Stats()
+    nbatch = [0]
+
+    def sink(cases):
+        nbatch[0] += 1
+        process(ctx, exe, st, cases, 'b%d' % nbatch[0])
+        lap('batch %d validated (%d lines so far, %d rejected)' % (nbatch[0], st.lines, st.rejected))
+    cs = Cases(sink)
+    make_cases(ctx, cs, lap)
     # pinned witnesses of known findings: replayed on every run
     pinned = [case_from_ident(k) for k in vlib.known_cases('C18')]
     still = 0
@@ -512,80 +611,60 @@ def run(ctx):
                 ctx.report(ident(c), describe(c, json.loads(l2[k]), sorted(set(why2[k]))), replay_obj=json.loads(l2[k]))
             else:
                 vlib.log('note: pinned witness no longer rejected (fixed?):', S(c['in']))
-    # ---- evidence
-    nontrivial, samples, branch = set(), [], dict(unchanged=0, base64=0, percent=0, minifier_called=0, mediatype_changed=0)
-    bytevals = set()
-    per = {}
-    for i, l in enumerate(lines):
-        e = json.loads(l)
-        key = '%s/%s' % (e['fn'], e['via'])
-        per[key] = per.get(key, 0) + 1
-        if e['fn'] == 'DataURI':
-            if e['hasref']:
-                bytevals.update(e['refpay'])
-            if e['calls']:
-                branch['minifier_called'] += 1
-            if e['out'] == e['in']:
-                branch['unchanged'] += 1
-            elif b';base64,' in bytes(e['out']):
-                branch['base64'] += 1
-            else:
-                branch['percent'] += 1
-        elif e['out'] != e['in']:
-            branch['mediatype_changed'] += 1
-        if e['out'] != e['in'] or e['calls']:
-            nontrivial.add((e['fn'], e['via'], bytes(e['in']), json.dumps(cases[i]['reg'], sort_keys=True)))
-            if len(samples) < 8 and i % 7919 == 0:
-                samples.append(dict(fn=e['fn'], via=e['via'], reg=cases[i]['reg'], out=S(e['out']), **{'in': S(e['in'])}))
-    if not samples:
-        e = json.loads(lines[len(lines) // 2])
-        samples.append(dict(fn=e['fn'], via=e['via'], out=S(e['out']), **{'in': S(e['in'])}))
+    q = ctx.quick()
     ctx.coverage.update(dict(
-        traces_validated_against_impl=accepted,
-        evaluations=len(lines),
-        distinct_nontrivial=len(nontrivial),
+        traces_validated_against_impl=st.accepted,
+        evaluations=st.lines,
+        distinct_nontrivial=len(st.nontrivial),
         rule='DataURI: every state of the TLC generator DataUriGen (14 media type spellings x {;base64, none} x payloads '
              'of <= %d bytes over {a,space,%%,#,",<,NUL,0xFF,+,/,=}), each as the raw text after the comma and as a validly '
-             'encoded payload, without and with registered minifiers (identity/shrinking/growing stub, real css/json/svg, '
-             'literal, text/plain and pattern registrations); every byte value 0..255 in 4 payload shapes x 4 spellings; '
-             'TLC -simulate walks over all byte values up to 48 bytes; malformed forms; the repository test inputs; a seeded '
-             'sample again through CSS url() and HTML src=. Mediatype: every string of <= %d bytes over {A,a,space,",;,=,/,\\} '
-             '(TLC dump of MediatypeGen), -simulate walks to 48 bytes, seeded strings of 6..14 bytes, strings around the 1024 '
-             'byte mark, and a sample through the HTML type attribute. A case is (fn, channel, input bytes, registrations); '
-             'non-trivial = the helper returned bytes different from its input or a registered minifier ran. '
-             'Excluded from generation (narrow constructs of pinned known findings, decided on the input only): %s'
-             % (3 if ctx.quick() else 4, 5 if ctx.quick() else 7, '; '.join('%s (%d inputs)' % kv for kv in sorted(cs.excluded.items())) or 'none'),
-        samples=samples,
+             'encoded payload, without a minifier, and a seeded %d%% of them with registered minifiers (identity/shrinking/'
+             'growing stub; literal, text/plain and pattern registrations); real css/json/svg minifiers on a list of documents '
+             'in 4 spellings x all media type spellings; every byte value 0..255 in 4 payload shapes x 4 spellings; TLC -simulate '
+             'walks over all byte values up to 48 bytes; malformed forms; the repository test inputs; a seeded sample again '
+             'through CSS url() and HTML src=. Mediatype: every string of <= %s bytes over {A,a,space,",;,=,/,\\} (TLC dump of '
+             'MediatypeGen), -simulate walks to 48 bytes, seeded strings of 6..14 bytes, strings around the 1024 byte mark, and '
+             'a sample through the HTML type attribute. A case is (fn, channel, input bytes, registrations); non-trivial = the '
+             'helper returned bytes different from its input or a registered minifier ran. Excluded from generation (narrow '
+             'constructs of pinned known findings, decided on the input only): %s'
+             % (3 if q else 4, 20 if q else 40, '5' if q else '6 (and a seeded 30% of length 7)',
+                '; '.join('%s (%d inputs)' % kv for kv in sorted(cs.excluded.items())) or 'none'),
+        samples=st.samples or [dict(note='no sampled line changed')],
         exhaustive=True,
         exhaustive_bound='all generator states: payload <= %d bytes over 11 symbols x 14 media types x 2 encodings; all media type '
-                         'strings <= %d bytes over 8 symbols' % (3 if ctx.quick() else 4, 5 if ctx.quick() else 7),
-        cases_per_channel=per,
-        branch_hits=branch,
-        payload_byte_values_covered=len(bytevals),
-        rejections=nrej,
-        rejections_reproduced=len(confirmed),
+                         'strings <= %d bytes over 8 symbols' % (3 if q else 4, 5 if q else 6),
+        cases_per_channel=st.per,
+        branch_hits=st.branch,
+        payload_byte_values_covered=len(st.bytevals),
+        rejections=st.rejected,
+        rejections_reproduced=st.confirmed,
         pinned_witnesses=len(pinned),
         pinned_still_failing=still,
+        design_drift=dict(st.drift, note='lines on which the design model (DataUriDesign.Design without minifier / MtMachine.AsIs) '
+                                         'predicts other bytes than the code returned; information, never a verdict',
+                          samples=st.drift_samples),
     ))
-    if len(bytevals) != 256:
-        raise vlib.Infra('only %d of 256 payload byte values were covered' % len(bytevals))
+    if len(st.bytevals) != 256:
+        raise vlib.Infra('only %d of 256 payload byte values were covered' % len(st.bytevals))
     ctx.assumptions += [
         'TLC evaluates DataUri.DataUriWhy/MediatypeWhy; the TLA+ percent/base64 decoders are cross-checked on every line against '
         'the Go standard library (net/url, encoding/base64) - a disagreement is exit 2',
         'RFC 2397 reading: header ends at the first comma, ";base64" only as the last item before it, "+" is not a space, '
         'urlchar = RFC 2396 reserved|unreserved|escaped; "&" may additionally be escaped',
+        'an opening quote that is never closed is malformed: from there on the media type relation only demands the "only" reading',
         'embedded channels: the URL is recovered from the host output by a purpose-written url() scanner / golang.org/x/net/html',
-        'the design model DataUriGen.Design describes the helper as intended (with the proposed fixes), not the pinned code',
+        'the design model DataUriDesign.Design describes the helper as intended (with the proposed fixes), MtMachine.AsIs the '
+        'pinned code; TLC proves AsIs violates the relation only on the excluded constructs within the bound',
     ]
 
 
 def replay(ctx, obj):
     exe = vlib.build_harness(ctx, 'c18')
     c = case_from_ident(obj['case'])
-    lines, accepted, rejects = validate(ctx, exe, [c], 'replay')
+    lines, why, _ = validate(ctx, exe, [c], 'replay')
     e = json.loads(lines[0])
-    print(describe(c, e, sorted(set(w for _, w in rejects)) or ['accepted']))
-    if rejects:
+    print(describe(c, e, sorted(set(why.get(0, []))) or ['accepted']))
+    if why:
         print('VIOLATION property=C18 replay=given')
         return 1
     return 0
